@@ -41,12 +41,17 @@ struct Ctx<'a> {
     attempts: usize,
     shutdown_seen: bool,
     events_after_shutdown: usize,
+    /// judge the client-level C05 rules instead of the C12 rules
+    c05_mode: bool,
+    surfaced: Vec<u64>,
+    next_token: u64,
 }
 
 impl<'a> Ctx<'a> {
     fn note(&mut self, s: String) { if self.log.len() < 400 { self.log.push(s); } }
 
     fn viol(&mut self, rule: &str, sig: &[(&str, String)], detail: String) {
+        if self.c05_mode != rule.starts_with("C05") { return; }
         self.violated = true;
         let replay = json!({"kind": "clientsim", "case": self.seed_info, "log": self.log});
         self.l.violation(rule, sig, detail, replay);
@@ -64,6 +69,9 @@ impl<'a> Ctx<'a> {
                 ClientEvent::PublishReceived(_) => "PublishReceived",
                 _ => "Other",
             };
+            if let ClientEvent::PublishReceived(p) = &*e {
+                if let Some(t) = p.publish.payload().and_then(crate::world::payload_token) { self.surfaced.push(t); }
+            }
             if name == "PublishReceived" || name == "Other" { continue; }
             self.note(format!("event {}", name));
             self.l.count("c12.lifecycle_events");
@@ -165,7 +173,7 @@ enum ConnectOutcome { Refused, TimedOut, Established }
 enum ServerMode { GoodConnack, FailingConnack, Garbage, Silent, EofAfterConnect }
 
 /// runs one client history; returns the number of loop iterations
-fn run_history(r: &mut Rng, l: &mut Local, idx: u64) {
+fn run_history(r: &mut Rng, l: &mut Local, idx: u64, c05_mode: bool) {
     let v5 = r.chance(2, 3);
     let mut cb = MqttClientOptions::builder();
     let connect_timeout_ms = *r.pick(&[30_000u64, 30_000, 3]);
@@ -188,7 +196,7 @@ fn run_history(r: &mut Rng, l: &mut Local, idx: u64) {
     let mut cx = Ctx {
         r, l, client, v5, log: Vec::new(), lang: Lang::Idle, want: Want::Stopped, stops_requested_effective: 0, stopped_events: 0, attempts_after_stopped_without_start: false,
         stopped_since_last_start: false, last_lifecycle: None, requests_left: requests, dead: false, violated: false, seed_info, next_tag: 1, stop_with_disconnect_pending: false,
-        attempts: 0, shutdown_seen: false, events_after_shutdown: 0,
+        attempts: 0, shutdown_seen: false, events_after_shutdown: 0, c05_mode, surfaced: Vec::new(), next_token: 1,
     };
     cx.l.count("c12.histories");
     let max_iterations = 600usize;
@@ -328,6 +336,15 @@ fn process_connected(cx: &mut Ctx, buf_cap: usize) -> Option<gv::ImplState> {
     let mut decoder = rf::StreamDecoder::new(v5);
     decoder.compat = true;
     let mut to_client: Vec<u8> = Vec::new();
+    // client-level C05: (end offset in the server stream, token) of every PUBLISH the server sent, the
+    // offset at which a protocol-violating packet starts (if one was sent) and the bytes delivered so far
+    let mut stream_len = 0usize;
+    let mut publish_ends: Vec<(usize, u64)> = Vec::new();
+    let mut bad_at: Option<usize> = None;
+    let mut delivered = 0usize;
+    let inbound_plan = if cx.c05_mode { cx.r.range(1, 8) as usize } else { cx.r.below(3) as usize };
+    let bad_after = if cx.r.chance(1, 2) { Some(cx.r.below(inbound_plan as u64 + 1) as usize) } else { None };
+    let surfaced_before = cx.surfaced.len();
     let mut eof = false;
     let mut idle = 0usize;
     let fault_at = if cx.r.chance(1, 3) { Some(cx.r.range(1, 60) as usize) } else { None };
@@ -354,6 +371,31 @@ fn process_connected(cx: &mut Ctx, buf_cap: usize) -> Option<gv::ImplState> {
             let chunk: Vec<u8> = to_client.drain(..n).collect();
             progressed = true;
             let res = cx.call("handle_incoming_bytes", |c| c.handle_incoming_bytes(&chunk))?;
+            delivered += chunk.len();
+            // after close() the engine has been reset and rejects all further data: nothing more is owed
+            let judged = cx.want != Want::Closed && (res.is_ok() || bad_at.map(|b| delivered > b).unwrap_or(false));
+            if judged && (res.is_err() || (to_client.is_empty() && !publish_ends.is_empty())) {
+                // every PUBLISH completely delivered before the first protocol-violating packet must have
+                // been surfaced to the listener exactly once by now
+                let limit = match (bad_at, res.is_err()) { (Some(b), true) => usize::min(b, delivered), _ => delivered };
+                let expected: Vec<u64> = publish_ends.iter().filter(|(end, _)| *end <= limit).map(|(_, t)| *t).collect();
+                let got: Vec<u64> = cx.surfaced[surfaced_before..].to_vec();
+                cx.l.add("c05.client_level_publishes_expected", expected.len());
+                for t in &expected {
+                    let n = got.iter().filter(|g| *g == t).count();
+                    if n != 1 {
+                        let failed = res.is_err();
+                        let errtxt = res.as_ref().err().map(|e| format!("{}", e)).unwrap_or_default();
+                        cx.note(format!("delivery result: {}", errtxt));
+                        cx.viol("C05.C1-client-level-surface-count", &[("times", n.to_string()), ("delivery_failed_later_in_same_read", failed.to_string())], format!("inbound publish token {} was completely delivered before any failing packet but reached the listener {} times (expected tokens {:?}, surfaced {:?})", t, n, expected, got));
+                        break;
+                    }
+                }
+                if got.iter().zip(expected.iter()).any(|(a, b)| a != b) && got.len() <= expected.len() {
+                    cx.viol("C05.C2-client-level-surface-order", &[], format!("surfaced {:?} but wire order is {:?}", got, expected));
+                }
+                publish_ends.retain(|(end, _)| *end > limit);
+            }
             if let Err(e) = res {
                 cx.note(format!("incoming bytes error {}", error_kind(&e)));
                 cx.call("apply_error", |c| c.apply_error(e));
@@ -395,7 +437,27 @@ fn process_connected(cx: &mut Ctx, buf_cap: usize) -> Option<gv::ImplState> {
                 for f in decoder.feed(&bytes) {
                     match f.packet {
                         rf::Packet::Connect(_) => match mode {
-                            ServerMode::GoodConnack => to_client.extend(rf::encode(&rf::Packet::Connack(rf::Connack::default()), v5, &rf::Knobs::default())),
+                            ServerMode::GoodConnack => {
+                                let k = rf::encode(&rf::Packet::Connack(rf::Connack::default()), v5, &rf::Knobs::default());
+                                stream_len += k.len();
+                                to_client.extend(k);
+                                for i in 0..inbound_plan {
+                                    if bad_after == Some(i) {
+                                        bad_at = Some(stream_len);
+                                        let b = rf::encode(&rf::Packet::Puback(rf::Ack { packet_id: 60000, ..Default::default() }), v5, &rf::Knobs::default());
+                                        stream_len += b.len();
+                                        to_client.extend(b);
+                                    }
+                                    let t = cx.next_token;
+                                    cx.next_token += 1;
+                                    let qos = cx.r.below(3) as u8;
+                                    let extra = { let n = *cx.r.pick(&[0usize, 10, 200]); cx.r.bytes(n) };
+                                    let p = rf::encode(&rf::Packet::Publish(rf::Publish { qos, packet_id: if qos > 0 { Some(100 + i as u16) } else { None }, topic: "in/y".into(), payload: crate::world::token_payload(t, &extra), ..Default::default() }), v5, &rf::Knobs::default());
+                                    stream_len += p.len();
+                                    to_client.extend(p);
+                                    publish_ends.push((stream_len, t));
+                                }
+                            }
                             ServerMode::FailingConnack => to_client.extend(rf::encode(&rf::Packet::Connack(rf::Connack { reason: if v5 { 0x87 } else { 5 }, ..Default::default() }), v5, &rf::Knobs::default())),
                             ServerMode::Garbage => to_client.extend(vec![0xFF, 0x03, 1, 2, 3]),
                             ServerMode::Silent => {}
@@ -451,7 +513,7 @@ pub fn run_c12(tier: &str, seed: u64) -> i32 {
         gates: vec![("c12.histories_completed", if quick { 10_000 } else { 300_000 }), ("c12.stop_rule_evaluated", if quick { 2_000 } else { 60_000 }), ("c12.lifecycle_events", 20_000)],
         budget_s: if quick { 900 } else { 3000 },
     };
-    let sim = cases_report(plan, tier, seed, move |idx, r, l| { run_history(r, l, idx); });
+    let sim = cases_report(plan, tier, seed, move |idx, r, l| { run_history(r, l, idx, false); });
     let real = crate::realdrv::c12_real_driver_report(tier, seed);
     sim.merge(real, "client_impl_simulator", "real_threaded_client").finish()
 }
@@ -598,4 +660,18 @@ pub fn run_c19(tier: &str, seed: u64) -> i32 {
         let _ = client.take_events();
         if l.samples.len() < 3 { l.sample(json!({"config": cfg, "history": hist})); }
     })
+}
+
+
+/// C05 at the level of the client implementation: what a listener sees versus what the server sent
+pub fn c05_client_level_report(tier: &str, seed: u64) -> crate::report::Report {
+    let quick = tier != "thorough";
+    let plan = FuzzPlan {
+        id: "C05", level: "exploration", cases: if quick { 20_000 } else { 600_000 },
+        rule: "the same driver-environment simulator as C12, judged on inbound traffic: after a successful CONNACK the scripted server sends 1..8 PUBLISH packets (QoS 0/1/2, unique tokens), in half of the connections with a protocol-violating packet placed somewhere in between, delivered in random fragments; every PUBLISH completely delivered before the violating packet must reach the client's listener exactly once and in wire order".into(),
+        assumptions: vec!["sessions are never resumed in this family (QoS2 de-duplication across sessions is judged on the engine)".into()],
+        gates: vec![("c05.client_level_publishes_expected", if quick { 10_000 } else { 300_000 })],
+        budget_s: if quick { 600 } else { 3000 },
+    };
+    cases_report(plan, tier, seed, move |idx, r, l| { run_history(r, l, idx, true); })
 }
